@@ -28,7 +28,7 @@ def step (l : List (Nat × List α)) (pt : Nat) : List (Nat × List α) × Nat :
     (Np.compress mask l, (mask.take pt).count true + 1)
 
 /-- the `while pt_ix < len(fmat)` loop; `fuel` bounds the number of iterations
-    (`loop_fuel_enough` in Props/C19 shows that `npt` iterations always suffice) -/
+    (`filter_loop_fuel_enough` in Props/C19 shows that `npt` iterations always suffice) -/
 def loop : Nat → List (Nat × List α) → Nat → List (Nat × List α)
   | 0, l, _ => l
   | fuel+1, l, pt =>
@@ -163,6 +163,173 @@ def specDist (rel abs_ : α) (mat : List (List α)) (sign line : List α) (d2 : 
 
 end geo
 
+/-! ### Spec oracles of the filter and of the dominance predicate (evaluated by the driver on the
+implementation's outputs; `Props/C19.lean` ties each to the Prop it decides: `spec_mask_iff`,
+`spec_mask_sound`, `spec_idx_iff`, `spec_idx_sound`, `spec_dominates_iff`, `spec_dominates_sound`) -/
+section specs
+variable {α : Type} [Mul α] [LT α] [DecidableLT α]
+
+/-- sentence 1 of C19 on weighted rows and a claimed mask, index-free (cost `n · #marked`):
+    sound    — no row is at least as good everywhere and strictly better somewhere than a marked row;
+    complete — every unmarked row is equalled or dominated by a marked row -/
+def specRowsSound (rows : List (List α)) (mask : List Bool) : Bool :=
+  (Np.compress mask rows).all (fun e => rows.all (fun r => !strictDom r e))
+
+def specRowsComplete (rows : List (List α)) (mask : List Bool) : Bool :=
+  (Np.compress (mask.map not) rows).all (fun r => (Np.compress mask rows).any (fun e => weakDom r e))
+
+def specMask (fmat : List (List α)) (wt : List α) (mask : List Bool) : Bool :=
+  let rows := fmat.map (applyWt wt)
+  mask.length == rows.length && specRowsSound rows mask && specRowsComplete rows mask
+
+/-- no repeated index -/
+def nodupB : List Nat → Bool
+  | [] => true
+  | a :: l => !l.contains a && nodupB l
+
+/-- mask and index forms describe the same set of points: every index valid, none repeated,
+    `mask[i]` true exactly for the listed indices -/
+def specIdx (n : Nat) (mask : List Bool) (idx : List Nat) : Bool :=
+  mask.length == n && idx.all (fun i => decide (i < n)) && nodupB idx &&
+    (mask.zipIdx.all (fun bi => bi.1 == idx.contains bi.2))
+
+end specs
+
+section specdom
+variable {α : Type} [LT α] [DecidableLT α] [OfNat α 0]
+
+/-- sentence 2 of C19 as a four-way case split written independently of the code: both feasible
+    (`cv ≤ 0`, i.e. not `0 < cv`) → Pareto dominance of the minimised objectives; feasible against
+    infeasible → dominates; infeasible against feasible → does not; both infeasible → smaller violation -/
+def wantDominates (o1 : List α) (c1 : α) (o2 : List α) (c2 : α) : Bool :=
+  match decide ((0:α) < c1), decide ((0:α) < c2) with
+  | false, false => strictDom o2 o1
+  | false, true => true
+  | true, false => false
+  | true, true => decide (c1 < c2)
+
+def specDominates (o1 : List α) (c1 : α) (o2 : List α) (c2 : α) (claimed : Bool) : Bool :=
+  claimed == wantDominates o1 c1 o2 c2
+
+end specdom
+
+/-! ### the three copies of the distance transformation, statement by statement
+
+`transDistSq` above is the common model; the three definitions below follow the three source
+functions line by line (argument order, the mask juggling of the zero-range guard, the order of the
+multiplications in the projection).  `Props/C19.dist_three_copies_agree` proves them equal to each
+other and to `transDistSq true`. -/
+section copies
+variable {α : Type} [Add α] [Sub α] [Mul α] [Div α] [OfNat α 0] [OfNat α 1] [LT α] [DecidableLT α]
+  [BEq α]
+
+/-- the scaling block shared by the three functions:
+    `mat = mat - mat.min(0); maximum = mat.max(0); mask = (maximum == 0.0); maximum[mask] = 1.0;
+     scale = 1.0 / maximum; scale[mask] = 0.0; mat = scale * mat` -/
+def scaleColsLit (mat : List (List α)) : List (List α) :=
+  let cols := Np.transpose mat
+  let minimum := cols.map colMin
+  let shifted := List.zipWith (fun c m => c.map (fun x => x - m)) cols minimum
+  let maximum := shifted.map colMax
+  let mask := maximum.map (fun mx => mx == 0)
+  let maximum1 := List.zipWith (fun mx (b : Bool) => if b then (1:α) else mx) maximum mask
+  let scale0 := maximum1.map (fun mx => (1:α) / mx)
+  let scale := List.zipWith (fun s (b : Bool) => if b then (0:α) else s) scale0 mask
+  Np.transpose (List.zipWith (fun c s => c.map (fun x => s * x)) shifted scale)
+
+/-- core/util/trans.py: `LdotLinv = 1/L.dot(L); PdotL = P.dot(L); scale = LdotLinv * PdotL;
+    projL_P = scale[:,None] * L; oprojL_P = P - projL_P; norm(oprojL_P)` (squared) -/
+def residCore (l p : List α) : α :=
+  let ldotlinv := (1:α) / Np.dot l l
+  let pdotl := Np.dot p l
+  let scale := ldotlinv * pdotl
+  let projlp := l.map (fun y => scale * y)
+  let oproj := List.zipWith (fun x y => x - y) p projlp
+  Np.dot oproj oproj
+
+/-- sel/prob/trans.py and sel/transfn.py: `vdvinv = 1/v.dot(v); scale = mat.dot(v) * vdvinv;
+    P = outer(scale, v); diff = mat - P; norm(diff)` (squared) -/
+def residOuter (v p : List α) : α :=
+  let vdvinv := (1:α) / Np.dot v v
+  let scale := Np.dot p v * vdvinv
+  let pp := v.map (fun y => scale * y)
+  let diff := List.zipWith (fun x y => x - y) p pp
+  Np.dot diff diff
+
+/-- `trans_ndpt_pseudo_dist(ndptmat, objfn_minmax, objfn_pseudoweight)`; the three `assert`s reject
+    (`none`) a preference vector with a negative entry or without a positive one -/
+def transDistCore (ndptmat : List (List α)) (minmax pw : List α) : Option (List α) :=
+  if pw.any (fun x => decide (x < 0)) then none else
+  if !(pw.any (fun x => decide (0 < x))) then none else
+  if !(decide (0 < Np.dot pw pw)) then none else
+  let m := scaleColsLit (ndptmat.map (fun r => List.zipWith (· * ·) r minmax))
+  some (m.map (residCore pw))
+
+/-- `sel/prob/trans.py:trans_ndpt_to_vec_dist(mat, obj_wt, vec_wt)` — `vec_wt` multiplies the front,
+    `obj_wt` is the vector projected on; `1/0 = inf`, `inf * 0 = NaN` ⇒ `none` for a zero vector -/
+def transDistProb (mat : List (List α)) (obj_wt vec_wt : List α) : Option (List α) :=
+  if Np.dot obj_wt obj_wt == 0 then none else
+  let m := scaleColsLit (mat.map (fun r => List.zipWith (· * ·) r vec_wt))
+  some (m.map (residOuter obj_wt))
+
+/-- `sel/transfn.py:trans_ndpt_to_vec_dist(mat, objfn_wt, wt)` — `wt` multiplies the front,
+    `objfn_wt` is the vector projected on -/
+def transDistFn (mat : List (List α)) (objfn_wt wt : List α) : Option (List α) :=
+  if Np.dot objfn_wt objfn_wt == 0 then none else
+  let m := scaleColsLit (mat.map (fun r => List.zipWith (· * ·) r wt))
+  some (m.map (residOuter objfn_wt))
+
+/-! the other transformation functions of the three modules that reduce a front (or a latent
+    vector) to ranking scores -/
+
+/-- `sel/transfn.py:trans_dot(mat, wt) = mat.dot(wt)` (weighted-sum method, one score per point) -/
+def transDot (mat : List (List α)) (wt : List α) : List α := mat.map (fun r => Np.dot r wt)
+
+/-- `sel/transfn.py:trans_sum(mat, axis)`: `axis=1` (per point), `axis=0` (per objective), `axis=None` -/
+def transSumAxis1 (mat : List (List α)) : List α := mat.map Np.sum
+def transSumAxis0 (mat : List (List α)) : List α := (Np.transpose mat).map Np.sum
+def transSumAll (mat : List (List α)) : α := Np.sum (mat.map Np.sum)
+
+/-- `sel/prob/trans.py:trans_sum(decnvec, latentvec) = latentvec.sum(0, keepdims=True)` -/
+def latentSum (latentvec : List α) : List α := [Np.sum latentvec]
+
+/-- `sel/prob/trans.py:trans_dot(decnvec, latentvec, latentvec_wt) = (latentvec_wt * latentvec).sum(0, keepdims=True)` -/
+def latentDot (latentvec latentvec_wt : List α) : List α :=
+  [Np.sum (List.zipWith (· * ·) latentvec_wt latentvec)]
+
+end copies
+
+/-! ### a linear-time evaluation of the geometric definition (what the driver runs on large fronts);
+`Props/C19.geo_dist_fast_eq` proves it equal to `geoDist` on every input -/
+section fast
+variable {α : Type} [Add α] [Sub α] [Mul α] [Div α] [OfNat α 0] [OfNat α 1] [LT α] [DecidableLT α]
+  [BEq α]
+
+def maxLen : List (List α) → Nat
+  | [] => 0
+  | r :: P => max r.length (maxLen P)
+
+/-- `(lo, hi)` of every objective, computed once -/
+def colStats (P : List (List α)) : List (α × α) :=
+  (List.range (maxLen P)).map (fun j => (colMin (colOf P j), colMax (colOf P j)))
+
+def geoScaleRowFast (st : List (α × α)) (row : List α) : List α :=
+  List.zipWith (fun x (lh : α × α) => if lh.2 == lh.1 then (0:α) else (x - lh.1) / (lh.2 - lh.1)) row st
+
+def geoDistFast (mat : List (List α)) (sign line : List α) : List α :=
+  let P := mat.map (fun r => List.zipWith (· * ·) r sign)
+  let st := colStats P
+  P.map (fun r => geoDistSq line (geoScaleRowFast st r))
+
+def specDistFast (rel abs_ : α) (mat : List (List α)) (sign line : List α) (d2 : List (Option α)) : Bool :=
+  let want := geoDistFast mat sign line
+  d2.all Option.isSome && d2.length == want.length &&
+    (List.zip d2 want).all (fun p => match p.1 with
+      | some x => closeTol rel abs_ x p.2
+      | none => false)
+
+end fast
+
 /-! ### the instances the driver executes: the definitions above at core `Rat`
 
 `Drv/C19.lean` calls these constants; `Props/C19.lean` (section `Q`) shows that the theorems proved
@@ -179,6 +346,24 @@ def transDistSq (guarded : Bool) (mat : List (List Rat)) (sign line : List Rat) 
 def geoDist (mat : List (List Rat)) (sign line : List Rat) : List Rat := Pareto.geoDist mat sign line
 def specDist (rel abs_ : Rat) (mat : List (List Rat)) (sign line : List Rat) (d2 : List (Option Rat)) : Bool :=
   Pareto.specDist rel abs_ mat sign line d2
+def specMask (fmat : List (List Rat)) (wt : List Rat) (mask : List Bool) : Bool := Pareto.specMask fmat wt mask
+def specRowsSound (rows : List (List Rat)) (mask : List Bool) : Bool := Pareto.specRowsSound rows mask
+def specRowsComplete (rows : List (List Rat)) (mask : List Bool) : Bool := Pareto.specRowsComplete rows mask
+def wantDominates (o1 : List Rat) (c1 : Rat) (o2 : List Rat) (c2 : Rat) : Bool := Pareto.wantDominates o1 c1 o2 c2
+def specDominates (o1 : List Rat) (c1 : Rat) (o2 : List Rat) (c2 : Rat) (claimed : Bool) : Bool :=
+  Pareto.specDominates o1 c1 o2 c2 claimed
+def transDistCore (mat : List (List Rat)) (minmax pw : List Rat) : Option (List Rat) := Pareto.transDistCore mat minmax pw
+def transDistProb (mat : List (List Rat)) (obj_wt vec_wt : List Rat) : Option (List Rat) := Pareto.transDistProb mat obj_wt vec_wt
+def transDistFn (mat : List (List Rat)) (objfn_wt wt : List Rat) : Option (List Rat) := Pareto.transDistFn mat objfn_wt wt
+def geoDistFast (mat : List (List Rat)) (sign line : List Rat) : List Rat := Pareto.geoDistFast mat sign line
+def specDistFast (rel abs_ : Rat) (mat : List (List Rat)) (sign line : List Rat) (d2 : List (Option Rat)) : Bool :=
+  Pareto.specDistFast rel abs_ mat sign line d2
+def transDot (mat : List (List Rat)) (wt : List Rat) : List Rat := Pareto.transDot mat wt
+def transSumAxis1 (mat : List (List Rat)) : List Rat := Pareto.transSumAxis1 mat
+def transSumAxis0 (mat : List (List Rat)) : List Rat := Pareto.transSumAxis0 mat
+def transSumAll (mat : List (List Rat)) : Rat := Pareto.transSumAll mat
+def latentSum (v : List Rat) : List Rat := Pareto.latentSum v
+def latentDot (v w : List Rat) : List Rat := Pareto.latentDot v w
 end Q
 
 end Pareto
